@@ -41,4 +41,5 @@ def run(ctx, rep):
     rep.run(RM.rule_enum_lookup_covers_scope, ctx, rep, "M13")
     # M15: the defaults the arities are expanded from survive instantiation: every rebuilt Argument keeps name and default (= C04 B11, C02 S5)
     rep.run(RI.rule_name_default_forwarding, ctx, rep, "M15")
+    rep.run(RM.rule_guard_builders_by_evaluation, ctx, rep, "M16")
     rep.run(RF.rule_locals_defined, ctx, rep, "U1", packages=("gtwrap/matlab_wrapper",), min_functions=3)
